@@ -75,7 +75,7 @@ Definition frnd (c : cfg) (x : float) : Z := get PrimFloat.eqb 0%Z (c_rnd c) x.
 Section Run.
   Variable c : cfg.
   Definition mstep := @step float PrimFloat.mul PrimFloat.div PrimFloat.abs PrimFloat.infinity (frnd c)
-                            PrimFloat.eqb (c_dim c) (c_corners c) (c_repaired c) (c_fix12 c).
+                            (c_dim c) (c_corners c) (c_repaired c) (c_fix12 c).
   Definition mloss := @loss float PrimFloat.infinity PrimFloat.ltb.
 
   Record lobs := mklobs {
@@ -144,7 +144,7 @@ Section Run.
   Fixpoint legal_l (s : lnd float) (l : list rop) : bool :=
     match l with
     | [] => true
-    | x :: l' => legal_op s (to_op false x) && legal_l (fst (mstep s (to_op false x))) l'
+    | x :: l' => legal_op (c_corners c) s (to_op false x) && legal_l (fst (mstep s (to_op false x))) l'
     end.
 
   Fixpoint trace_l (s : lnd float) (l : list rop) : list (out float * lobs) :=
